@@ -860,3 +860,21 @@ Proof.
     destruct (N.of_nat (S b) =? 0) eqn:E; [apply N.eqb_eq in E; lia|].
     replace (N.of_nat (S b) - 1) with (N.of_nat b) by lia. rewrite IH. reflexivity.
 Qed.
+
+(* the handler model passes the observed-upload oracle in every sequence of states *)
+Lemma uploads_check_sound hs : C33_uploads_check (observed_of hs) = true.
+Proof.
+  unfold C33_uploads_check, observed_of. apply forallb_forall. intros p Hp.
+  apply in_map_iff in Hp as [h [<- _]]. cbn [fst snd].
+  destruct (handler h =? 200) eqn:E; [|reflexivity]. apply N.eqb_eq in E. apply handler_200 in E.
+  rewrite E. reflexivity.
+Qed.
+
+Lemma uploads_check_means ups :
+  C33_uploads_check ups = true <-> forall c u, In (c, u) ups -> c = 200 -> u = true.
+Proof.
+  unfold C33_uploads_check. rewrite forallb_forall. split.
+  - intros H c u Hin ->. specialize (H _ Hin). cbn in H. exact H.
+  - intros H [c u] Hin. cbn [fst snd]. destruct (c =? 200) eqn:E; [|reflexivity].
+    apply N.eqb_eq in E. cbn. exact (H c u Hin E).
+Qed.
